@@ -365,14 +365,16 @@ func (u *tixUniverse) newSeries(rng *rand.Rand, missP int) (tixSeries, []string,
 // ---------------------------------------------------------------- run
 
 type tixRun struct {
-	rec     *trace.Recorder
-	rng     *rand.Rand
-	sum     *trace.Summary
-	scratch string
-	n       int
-	counts  map[string]int
-	qstats  map[string]int
-	debug   bool
+	recentAtoms []*tixCond // the last atoms generated (for repeated leaves)
+	recentU     *tixUniverse
+	rec         *trace.Recorder
+	rng         *rand.Rand
+	sum         *trace.Summary
+	scratch     string
+	n           int
+	counts      map[string]int
+	qstats      map[string]int
+	debug       bool
 
 	// one universe
 	dir       string
@@ -942,6 +944,19 @@ func (r *tixRun) atom(unanchoredRegex bool) *tixCond {
 func (r *tixRun) cond(depth int, unanch bool) *tixCond {
 	if depth <= 0 || r.rng.Intn(4) == 0 {
 		a := r.atom(unanch)
+		// the same atomic filter may occur several times in one where clause: one of the last atoms is used again
+		if r.recentU != r.u {
+			r.recentU, r.recentAtoms = r.u, nil
+		}
+		if n := len(r.recentAtoms); n > 0 && r.rng.Intn(4) == 0 {
+			cp := *r.recentAtoms[r.rng.Intn(n)]
+			a = &cp
+		} else {
+			r.recentAtoms = append(r.recentAtoms, a)
+			if len(r.recentAtoms) > 3 {
+				r.recentAtoms = r.recentAtoms[1:]
+			}
+		}
 		if r.rng.Intn(8) == 0 {
 			return &tixCond{Op: "paren", L: a}
 		}
@@ -1342,7 +1357,6 @@ func (r *tixRun) big(n, qn int) {
 		r.queries(qn, 2)
 	}
 }
-
 
 // ---------------------------------------------------------------- questions and writes INSIDE the commit of a flush
 // "Being flushed" is not one instant: a flush writes its table file, commits it to the kv family (manifest record, new
